@@ -41,6 +41,35 @@ example : ("nat_eval", some 0, "data.nat") ∈ Gen.macroTable ∧ trusted ("nat_
   decide +kernel
 
 
+/-! ### numerals -/
+
+/-- the value of a chain of `bit0` / `bit1` over `zero` / `one`, most significant digit innermost
+(`bit0 n = n + n`, `bit1 n = n + n + 1` in the library) — written independently of the model's reader -/
+def chainValue : AExpr → Option Nat
+  | .zero _ => some 0
+  | .one _ => some 1
+  | .bit0 a => (chainValue a).map (fun n => n + n)
+  | .bit1 a => (chainValue a).map (fun n => n + n + 1)
+  | _ => none
+
+/-- `is_binary` / `dest_binary`: the numeral reader accepts EVERY chain `zero | one | bit0 _ | bit1 _`
+(normal form or not: leading zeros `bit1 (bit0 zero)`, `bit0 zero`, …), reads exactly those, and returns
+the standard value of the chain; for a well-typed chain this is its typed denotation.  Every evaluator
+theorem below quantifies over all terms, hence over all such chains (`nat_eval`, `int_eval`, `real_eval`,
+`dest_number` all go through this reader). -/
+theorem dest_binary_value (ρ : Nat → Val) (a : AExpr) :
+    (isBinary a = true ↔ (chainValue a).isSome = true) ∧
+    (isBinary a = true → chainValue a = some (destBinary a)) ∧
+    (isBinary a = true → wt a = true → typeOf a = .nat → den ρ a = some (.n (destBinary a))) := by
+  refine ⟨?_, ?_, isBinary_den ρ a⟩
+  · induction a <;> simp_all [isBinary, chainValue]
+  · induction a <;> simp_all [isBinary, chainValue, destBinary] <;> omega
+
+/- [0101]: bit1 (bit0 (bit1 zero)) is read as 5, not 13 -/
+example : destBinary (.bit1 (.bit0 (.bit1 (.zero .nat)))) = 5 ∧
+    natEval (.ofNat .nat (.bit1 (.bit0 (.bit1 (.zero .nat))))) = .ok 5 ∧
+    realEval (.ofNat .real (.bit0 (.zero .nat))) = .ok (.int 0) := by decide +kernel
+
 /-! ### the evaluators -/
 
 /-- `nat_eval` (after fixes/C05-1): if it returns `v` on a well-typed term of type nat, then `v`
